@@ -684,6 +684,16 @@ def r_cols(ctx) -> RuleResult:
     for k, want in want_fields.items():
         got = {c[1:-1] for c in _labels(taint(rec.fields.get(k)), "@col")}
         if not got:
+            toks = {c[1:-1] for c in _labels(taint(rec.fields.get(k)), "@idx")} | {c[1:-1] for c in _labels(taint(rec.fields.get(k)), "@toks")}
+            if toks:
+                # read as the n-th blank-separated token: the V2000 atom line has fixed columns without separators
+                dec_ = block_decoder(ctx, "V2000", 0) or fi
+                res.inst(fi.fq, f"atom line: {k} read as token {sorted(toks)} of the split line", "fail")
+                res.fail(Finding("R-COLS", dec_.module.rel, dec_.qualname, f"{k} <- token {sorted(toks)}",
+                                 f"`{k}` is taken as blank-separated token {sorted(toks)} of the V2000 atom line; the format gives it the fixed columns {sorted(want)} and its fields may touch "
+                                 "(a coordinate of ten characters leaves no blank): such a line is split at the wrong places or rejected, so what is read depends on the coordinates",
+                                 line=dec_.node.lineno))
+                continue
             raise AnalysisError(f"R-COLS: cannot see which columns of the atom line `{k}` is read from")
         ok = got == want
         res.inst(fi.fq, f"atom line: `{k}` read from columns {sorted(got)}", "ok" if ok else "fail", detail=f"spec {sorted(want)}")
@@ -1058,6 +1068,20 @@ def r_sibkeys(ctx) -> RuleResult:
             import copy
             sub = copy.copy(fn2)
             sub.body = stmts[:-1] if len(stmts) > 1 else []
+            if stmts and isinstance(stmts[-1], (ast.Try, ast.With, ast.If, ast.For, ast.While)):
+                # the look-up sits inside a compound statement: what precedes it there counts as well
+                def prefix(block):
+                    out_ = []
+                    for st_ in block:
+                        if any(y is x for y in ast.walk(st_)):
+                            if isinstance(st_, (ast.Try, ast.With, ast.For, ast.While)):
+                                out_ += prefix(st_.body)
+                            elif isinstance(st_, ast.If):
+                                out_ += prefix(st_.body if any(y is x for b_ in st_.body for y in ast.walk(b_)) else st_.orelse)
+                            return out_
+                        out_.append(st_)
+                    return out_
+                sub.body = sub.body + prefix([stmts[-1]])
             from ..model import FuncInfo as _FI
             f_sub = copy.copy(f)
             f_sub.node = sub
